@@ -15,6 +15,8 @@ C08.f trailer framing (symbolic lengths): in PackHeader::from_file and check_pac
   exactly LENGTH_LEN bytes, the slice handed to decrypt has exactly the length stored in that field on every path
   (header already read / re-read), and the ranged reads end at the end of the pack.
 C08.g the index entry of a pack is stored as handed over (Indexer::add_with does not mutate its IndexPack).
+C08.j reader limits: a constant upper limit on the header length in PackHeader::from_file is at least the largest header the
+  packer writes (COMP_OVERHEAD + MAX_COUNT * max entry length); take_data resets the running size (offsets restart at 0).
 C08.e reader side: PackHeader::from_file compares the decoded header's size with the trailer length and its pack_size
   with the listed size before returning Ok; from_binary advances the offset by each blob's length.
 """
@@ -274,6 +276,7 @@ def run(ctx, rep):
     rep.rule("C08.i", "repair-index warms up and reads the complete set of packs whose headers it needs (shared with C16.c)")
     n_ = borrow(rep, ctx, C16, lambda o: o.rule == "C16.c" and "repair::index" in o.key, "C08.i")
     rep.floor("C08.i", "borrowed obligations", n_, 1)
+    reader_limits_rule(ctx, rep, "C08.j")
     # ---- C08.h: sizes computed from index data add up the length of EACH entry (entries of one pack may differ: a pack
     # can mix compressed and uncompressed blobs, e.g. after a fast repack across a compression change)
     rep.rule("C08.h", "computed header/pack sizes sum the individual entry lengths")
@@ -315,6 +318,50 @@ def run(ctx, rep):
         okh = bool(lens_) and not mul and per_item
         rep.check("C08.h", f"{fname}/sums-each-entry", okh, where=F0.loc(), what=f"PackHeaderRef::{fname} adds HeaderEntry::length() of every blob" if okh else
                   f"PackHeaderRef::{fname} does not add up the length of each entry (length() multiplied at {sorted(set(mul))} / not evaluated per blob): sizes are wrong for packs mixing compressed and uncompressed blobs")
+
+
+def reader_limits_rule(ctx, rep, R):
+    """the reader accepts every header the writer can produce: a constant upper limit that PackHeader::from_file puts on the
+    header length read from the trailer is at least COMP_OVERHEAD + MAX_COUNT * max(entry lengths) - the largest header the
+    packer writes before it closes a pack. (Today there is no such limit; the rule guards any that is introduced.)"""
+    prog = ctx.prog
+    rep.rule(R, "constant limits on the header length in the reader are not below the largest header the writer produces")
+
+    def cv(name):
+        c = prog.consts.get(name)
+        v = c.get("val") if c else None
+        if not isinstance(v, int):
+            raise AnchorError(f"constant {name} not evaluated")
+        return v
+    need = cv("rustic_core::repofile::packfile::constants::COMP_OVERHEAD") + cv("rustic_core::blob::packer::constants::MAX_COUNT") * max(
+        cv("rustic_core::repofile::packfile::HeaderEntry::ENTRY_LEN"), cv("rustic_core::repofile::packfile::HeaderEntry::ENTRY_LEN_COMPRESSED"))
+    FF = prog.find1(r"^rustic_core::repofile::packfile::PackHeader::from_file$")
+    n = 0
+    for sw in range(len(FF.blocks)):
+        t = FF.term(sw)
+        if t["k"] != "switch" or t["discr_ty"] != "bool":
+            continue
+        e = flow.expr_of(FF, t["discr"], sw)
+        while e[0] == "un" and e[1] == "Not":
+            e = e[2]
+        if e[0] != "bin" or e[1] not in ("Gt", "Ge", "Lt", "Le"):
+            continue
+        a, b = e[2], e[3]
+        k = other = None
+        if b[0] == "const" and isinstance(b[1], int) and not isinstance(b[1], bool):
+            k, other, op = b[1], a, e[1]
+        elif a[0] == "const" and isinstance(a[1], int) and not isinstance(a[1], bool):
+            k, other, op = a[1], b, {"Gt": "Lt", "Ge": "Le", "Lt": "Gt", "Le": "Ge"}[e[1]]
+        if k is None or not re.search(r"PackHeaderLength|to_u32|from_binary", repr(other)):
+            continue
+        if op not in ("Gt", "Ge"):
+            continue                      # a lower limit (e.g. at least the length field) cannot refuse a large header
+        n += 1
+        limit = k if op == "Gt" else k - 1          # largest accepted value
+        ok = limit >= need
+        rep.check(R, f"from_file/length-limit/{n}", ok, where=where(FF, sw), what=f"header lengths up to {limit} are accepted (largest header the writer produces: {need})" if ok else
+                  f"PackHeader::from_file refuses header lengths above {limit}, but the packer writes headers of up to {need} bytes (MAX_COUNT blobs with compressed-entry length): such packs cannot be read back / re-indexed")
+    rep.count(f"{R}: constant upper limits on the header length", n)
 
 
 def _length_len(prog):
